@@ -169,7 +169,10 @@ class AaveWorld:
                 "collateral": can_coll, "borrow": can_borrow,
             }
             rows.append([
-                "0x" + f"{k:040x}", ("USD Coin" if t.name == "USDC" else f"{t.name} token"), t.name, t.decimal, ltv, lt, 10000 + bonus, 1000, can_coll,
+                # the bridged coin is listed under the symbol USDC too, as in the protocol's parameter files (the loader tells the two
+                # rows apart by their reserve name and calls the bridged one USDC.E)
+                "0x" + f"{k:040x}", {"USDC": "USD Coin", "USDC.E": "USD Coin (PoS)"}.get(t.name, f"{t.name} token"),
+                "USDC" if t.name == "USDC.E" else t.name, t.decimal, ltv, lt, 10000 + bonus, 1000, can_coll,
                 can_borrow, 9 * 10**26, 4 * 10**25, 6 * 10**26, 0, 0, 0, True, True,
             ])
         fd, self.risk_path = tempfile.mkstemp(prefix="risk-", suffix=".csv", dir=os.getcwd())
